@@ -57,7 +57,7 @@ CLAIMS = {
                 text="PARTIAL proof: ordering keys depend on coordinates only (total, lexicographic, antisymmetric, transitive; UUID/data ignored); Hilbert and lexicographic orderings of two distinct points do not depend on the caller's order (also inside one grid cell); shuffle seed is order-free (N <= 3, bounded). Equality of the resulting cell sets is undecided.",
                 note=_NOTE),
     "C16": dict(technique="deductive contracts: Kani on the three wrapping functions with f64::rem_euclid replaced by its assumed contract; Kani K-slices on the periodic grid snap",
-                text="Proof of the wrapping contract for every f64 value, period and axis: result in [0, period), in-range values unchanged, idempotent, errors refuse and (bad configuration) leave the point untouched - for ToroidalSpace::wrap_coord / canonicalize_point and ToroidalModel::canonicalize_point_in_place (f64, f32). Congruence modulo the period rests on the assumed exactness of fmod; periodic image construction is undecided. Added: periodic (image-point) construction: per-axis grid snap and clamped hash perturbation keep every stored coordinate in [0, L) (K-slices front / clamp / back, all values; perturbation range for every index). NOT decided: the clause 'later insertions are wrapped the same way' - observed not to hold on the current tree (no insertion path consults the topology model; DESIGN.md Section 7, F9, witness findings/f9_*.rs).",
+                text="Proof of the wrapping contract for every f64 value, period and axis: result in [0, period), in-range values unchanged, idempotent, errors refuse and (bad configuration) leave the point untouched - for ToroidalSpace::wrap_coord / canonicalize_point and ToroidalModel::canonicalize_point_in_place (f64, f32). Congruence modulo the period rests on the assumed exactness of fmod; periodic image construction is undecided. Added: periodic (image-point) construction: per-axis grid snap and clamped hash perturbation keep every stored coordinate in [0, L) (K-slices front / clamp / back, all values; perturbation range for every index). Added with the repair of F9 (d8c7375): a vertex inserted after construction into a toroidal triangulation is wrapped into [0, L) before the insertion engine sees it (K-slice of the statement at the top of insert_transactional).",
                 note=_NOTE),
     "C19": dict(technique="deductive contracts: union of the no-panic obligations (overflow, bounds, unwrap, unreachable, debug_assert) of every function under contract",
                 text="PARTIAL proof: every function under contract in the other units is panic-free for all inputs meeting its stated precondition (Kani default checks + unwinding assertions), non-finite coordinates are refused by Point::validate / Vertex::is_valid, flip budget finite. Termination of the engines and panic-freedom of storage code are undecided.",
